@@ -196,7 +196,7 @@ class FnTranslator:
             if isinstance(n.op, ast.Pow):
                 if isinstance(n.left, ast.Constant) and n.left.value in (2, 2.0):
                     self.oracles.add('exp2')
-                    return ('(exp2 %s)' % self.toQ(self.expr(n.right, env)), 'Q')
+                    return self.lift([self.expr(n.right, env)], lambda vs: ('(exp2 %s)' % self.toQ(vs[0]), 'Q'))   # 2 ** nan = nan
                 if isinstance(n.right, ast.Constant) and isinstance(n.right.value, int) and not isinstance(n.right.value, bool) \
                         and 2 <= n.right.value <= 8:
                     k = n.right.value
